@@ -125,7 +125,7 @@ fn cmd_batch(args: &[String]) -> i32 {
         "{{\"prop\":{},\"tier\":{},\"seed\":{},\"runs\":{},\"workers\":{},\"wall_s\":{:.3},\"wall_batch_s\":{:.3},\
 \"nontrivial_runs\":{},\"distinct_nontrivial\":{},\"cells_reached\":{},\"sim_seconds\":{:.3},\
 \"trace_xor\":\"{:016x}\",\"trace_sum\":\"{:016x}\",\"failing_runs\":{},\
-\"faults_fired\":{},\"reach_probes\":{},\"counts\":{},\"failures\":[{}],\"samples\":[{}]}}",
+\"faults_fired\":{},\"reach_probes\":{},\"counts\":{},\"cells_by_space\":{},\"failures\":[{}],\"samples\":[{}]}}",
         jstr(&prop),
         jstr(if tier == Tier::Quick { "quick" } else { "thorough" }),
         seed,
@@ -143,6 +143,7 @@ fn cmd_batch(args: &[String]) -> i32 {
         jmap_u64(&res.counters, "fault."),
         jmap_u64(&res.counters, "reach."),
         jmap_u64(&res.counters, "n."),
+        format!("{{{}}}", res.cells_by_space().iter().map(|(k, v)| format!("{}:{}", jstr(k), v)).collect::<Vec<_>>().join(",")),
         fail_json.join(","),
         samples.join(",")
     );
